@@ -209,7 +209,8 @@ func (s *APIRegServer) registerBidirectional(w http.ResponseWriter, r *http.Requ
 
 	// Check server's client config -- add server's ClientConf if client is outdated
 	serverClientConf := s.compareClientConfGen(payload.GetRegistrationPayload().GetDecoyListGeneration())
-	if serverClientConf != nil {
+	if serverClientConf != nil && payload.GetRegistrationPayload() != nil {
+		// (a body without registration_payload is refused below with "no C2S body")
 		// Replace the payload generation with correct generation from server's client config
 		payload.RegistrationPayload.DecoyListGeneration = serverClientConf.Generation
 	}
